@@ -1,8 +1,10 @@
 (* C11 — Decisions explain themselves truthfully and the audit trail agrees with them.
-   Statements only.  Same model and hypotheses as C01; oblig is ANY obligation checker. *)
+   Statements only.  Same model and hypotheses as C01; oblig is ANY obligation checker.
+   Last section: the same through the decision cache (theories/CacheExplain.v = C08 composed with these). *)
 From Coq Require Import List Bool String.
 From Rbacx Require Import Value Cond Target Policy PolicySet Compiler Oblig Engine
-     PolicyProofs PolicySetProofs ObligProofs EngineProofs.
+     PolicyProofs PolicySetProofs ObligProofs EngineProofs
+     Cache CacheKey CacheGuard CacheGuardProofs CacheExplain.
 Import ListNotations.
 Local Open Scope string_scope.
 
@@ -67,3 +69,116 @@ Print Assumptions c11_audit_agrees.
 Theorem c11_sinks_inert : forall log1 inc1 log2 inc2 env d, emit log1 inc1 env d = emit log2 inc2 env d.
 Proof. exact sinks_inert. Qed.
 Print Assumptions c11_sinks_inert.
+
+(* ------------------------------------------------------------------ *)
+(* through the decision cache (C08 composed with the theorems above)    *)
+(* ------------------------------------------------------------------ *)
+Local Open Scope list_scope.   (* ++ is list append below *)
+(* Vocabulary as in props/C01.v (sites h = pre ++ HEval w req :: post, answer number evals_in pre,
+   policy_at w pre g1 g2 = the policy guard w holds at that point, guard_strict w g1 g2 = its type
+   mode) and props/C08.v (histories, run_cached, contract, tag_inj, key_safe).  Every answer of the
+   cached engines, hits included, explains itself truthfully w.r.t. the policy held AT THAT TIME. *)
+Theorem c11_rule_id_truthful_cached :
+  forall (rel : rel_query -> bool) (T : Type) (tag : value -> T) (teqb : T -> T -> bool),
+  (forall a b, teqb a b = true <-> a = b) ->
+  forall (M : cache_impl T), contract T teqb M ->
+  forall (copying : bool) (g1 g2 : gcfg) (h : list hop),
+  tag_inj T tag (policies_all g1 g2 h) ->
+  (forall p, In p (policies_all g1 g2 h) -> tree_ok p) ->
+  (forall e, In e (envs_all g1 g2 h) -> key_safe e = true) ->
+  forall pre w req post hit d s,
+  h = pre ++ HEval w req :: post ->
+  nth_error (snd (run_cached unit (relh_pure rel) T tag canon builtin_both M copying h (init unit T M g1 g2 tt)))
+            (evals_in pre) = Some (hit, GDecision d) ->
+  d_rule_id d = Some s -> (has_key "policies" (policy_at w pre g1 g2) = true -> s <> "") ->
+  exists env rule eff,
+    build_env (guard_strict w g1 g2) req None = Some env /\
+    In rule (all_rules (policy_at w pre g1 g2)) /\ applicable rel rule env /\ rule_id rule = VStr s /\
+    rule_effect rule = Some eff /\
+    ((eff = "deny" /\ d_effect d = "deny" /\ d_allowed d = false /\ d_reason d = "explicit_deny") \/
+     (eff = "permit" /\ d_obligations d = rule_obls rule /\
+      ((d_effect d = "permit" /\ d_allowed d = true /\ d_reason d = "matched") \/
+       (d_effect d = "deny" /\ d_allowed d = false /\ d_reason d = "obligation_failed")))).
+Proof. exact rule_id_truthful_cached. Qed.
+Print Assumptions c11_rule_id_truthful_cached.
+
+Theorem c11_no_rule_cached :
+  forall (rel : rel_query -> bool) (T : Type) (tag : value -> T) (teqb : T -> T -> bool),
+  (forall a b, teqb a b = true <-> a = b) ->
+  forall (M : cache_impl T), contract T teqb M ->
+  forall (copying : bool) (g1 g2 : gcfg) (h : list hop),
+  tag_inj T tag (policies_all g1 g2 h) ->
+  (forall e, In e (envs_all g1 g2 h) -> key_safe e = true) ->
+  forall pre w req post hit d,
+  h = pre ++ HEval w req :: post ->
+  nth_error (snd (run_cached unit (relh_pure rel) T tag canon builtin_both M copying h (init unit T M g1 g2 tt)))
+            (evals_in pre) = Some (hit, GDecision d) ->
+  d_rule_id d = None ->
+  exists env, build_env (guard_strict w g1 g2) req None = Some env /\
+              exhibited rel env (all_rules (policy_at w pre g1 g2)) (d_reason d) /\
+              d_allowed d = false /\ d_effect d = "deny".
+Proof. exact no_rule_reason_cached. Qed.
+Print Assumptions c11_no_rule_cached.
+
+(* "oblig is ANY obligation checker" through the cache: any checkers (one per guard) and any key
+   normal form that meet the conditions under which C08 proves the cache transparent
+   (c08_transparent): requests with one key are decided alike, the checkers do not read
+   raw["reason"], a refusal is a refusal for both guards on every request with that key.
+   (A second guard with a checker outside these conditions: c08_other_checker_leaks.) *)
+Theorem c11_rule_id_truthful_cached_any_checker :
+  forall (rel : rel_query -> bool) (T : Type) (tag : value -> T) (teqb : T -> T -> bool),
+  (forall a b, teqb a b = true <-> a = b) ->
+  forall (M : cache_impl T), contract T teqb M ->
+  forall (copying : bool) (g1 g2 : gcfg) (h : list hop),
+  tag_inj T tag (policies_all g1 g2 h) ->
+  (forall p, In p (policies_all g1 g2 h) -> tree_ok p) ->
+  forall (norm : value -> value) (oblig : bool -> raw -> value -> option (bool * option string)),
+  key_respects_decision (relh_pure rel) norm (policies_all g1 g2 h) (envs_all g1 g2 h) ->
+  reason_blind oblig ->
+  refusal_stable norm oblig (envs_all g1 g2 h) ->
+  forall pre w req post hit d s,
+  h = pre ++ HEval w req :: post ->
+  nth_error (snd (run_cached unit (relh_pure rel) T tag norm oblig M copying h (init unit T M g1 g2 tt)))
+            (evals_in pre) = Some (hit, GDecision d) ->
+  d_rule_id d = Some s -> (has_key "policies" (policy_at w pre g1 g2) = true -> s <> "") ->
+  exists env rule eff,
+    build_env (guard_strict w g1 g2) req None = Some env /\
+    In rule (all_rules (policy_at w pre g1 g2)) /\ applicable rel rule env /\ rule_id rule = VStr s /\
+    rule_effect rule = Some eff /\
+    ((eff = "deny" /\ d_effect d = "deny" /\ d_allowed d = false /\ d_reason d = "explicit_deny") \/
+     (eff = "permit" /\ d_obligations d = rule_obls rule /\
+      ((d_effect d = "permit" /\ d_allowed d = true /\ d_reason d = "matched") \/
+       (d_effect d = "deny" /\ d_allowed d = false /\ d_reason d = "obligation_failed")))).
+Proof. exact rule_id_truthful_cached_any. Qed.
+Print Assumptions c11_rule_id_truthful_cached_any_checker.
+
+Theorem c11_no_rule_cached_any_checker :
+  forall (rel : rel_query -> bool) (T : Type) (tag : value -> T) (teqb : T -> T -> bool),
+  (forall a b, teqb a b = true <-> a = b) ->
+  forall (M : cache_impl T), contract T teqb M ->
+  forall (copying : bool) (g1 g2 : gcfg) (h : list hop),
+  tag_inj T tag (policies_all g1 g2 h) ->
+  forall (norm : value -> value) (oblig : bool -> raw -> value -> option (bool * option string)),
+  key_respects_decision (relh_pure rel) norm (policies_all g1 g2 h) (envs_all g1 g2 h) ->
+  reason_blind oblig ->
+  refusal_stable norm oblig (envs_all g1 g2 h) ->
+  forall pre w req post hit d,
+  h = pre ++ HEval w req :: post ->
+  nth_error (snd (run_cached unit (relh_pure rel) T tag norm oblig M copying h (init unit T M g1 g2 tt)))
+            (evals_in pre) = Some (hit, GDecision d) ->
+  d_rule_id d = None ->
+  exists env, build_env (guard_strict w g1 g2) req None = Some env /\
+              exhibited rel env (all_rules (policy_at w pre g1 g2)) (d_reason d) /\
+              d_allowed d = false /\ d_effect d = "deny".
+Proof. exact no_rule_reason_cached_any. Qed.
+Print Assumptions c11_no_rule_cached_any_checker.
+
+(* non-vacuity (theories/CacheExplain.v; hypotheses: c01_cached_example_hypotheses): the refused
+   evaluation after the set_policy names o1 of pol_mfa with reason obligation_failed *)
+Example c11_cached_example :
+  forall d, nth_error xouts 2 = Some (false, GDecision d) ->
+  exists env rule eff,
+    build_env false (xr []) None = Some env /\ In rule (all_rules pol_mfa) /\
+    applicable (fun _ => false) rule env /\ rule_id rule = VStr "o1" /\ rule_effect rule = Some eff /\
+    eff = "permit" /\ d_effect d = "deny" /\ d_allowed d = false /\ d_reason d = "obligation_failed".
+Proof. exact x_refusal_explained. Qed.
